@@ -909,22 +909,33 @@ func (d *Data) SplitLabels(v dvid.VersionID, fromLabel uint64, r io.ReadCloser, 
 func (d *Data) SplitSupervoxel(v dvid.VersionID, svlabel, splitlabel, remainlabel uint64, r io.ReadCloser, info dvid.ModInfo, downscale bool) (splitSupervoxel, remainSupervoxel, mutID uint64, err error) {
 	timedLog := dvid.NewTimeLog()
 
-	// Create new labels for this split that will persist to store
+	// Create new labels for this split that will persist to store.  The labels chosen by the
+	// client are registered first, so that a label drawn for the other part is above both.
+	if splitlabel != 0 && splitlabel == remainlabel {
+		err = fmt.Errorf("split and remain supervoxel of %d cannot both be label %d", svlabel, splitlabel)
+		return
+	}
 	if splitlabel != 0 {
 		splitSupervoxel = splitlabel
 		if _, err = d.updateMaxLabel(v, splitlabel); err != nil {
 			return
 		}
-	} else if splitSupervoxel, err = d.newLabel(v); err != nil {
-		return
 	}
 	if remainlabel != 0 {
 		remainSupervoxel = remainlabel
 		if _, err = d.updateMaxLabel(v, remainlabel); err != nil {
 			return
 		}
-	} else if remainSupervoxel, err = d.newLabel(v); err != nil {
-		return
+	}
+	if splitlabel == 0 {
+		if splitSupervoxel, err = d.newLabel(v); err != nil {
+			return
+		}
+	}
+	if remainlabel == 0 {
+		if remainSupervoxel, err = d.newLabel(v); err != nil {
+			return
+		}
 	}
 	dvid.Debugf("Splitting subset of label %d into new label %d and renaming remainder to label %d...\n", svlabel, splitSupervoxel, remainSupervoxel)
 
